@@ -125,6 +125,10 @@ def make_pass(name):
     if name == 'line_markers':
         from cvise.passes.line_markers import LineMarkersPass
         return LineMarkersPass(None, {})
+    if name == 'ifs':
+        # instances = the #if directives; each range is tried as `#if 0` and as `#if 1` (scripted unifdef resolves them)
+        from cvise.passes.ifs import IfPass
+        return IfPass(None, {'unifdef': str(VERIF / 'tools' / 'standins' / 'unifdef')})
     if name == 'gcda':
         # instances = the functions `gcov-dump -p` reports (scripted stand-in: one record line per function)
         from cvise.passes.gcdabinary import GCDABinaryPass
@@ -135,6 +139,8 @@ def make_pass(name):
 def item_text(name, i):
     if name == 'gcda':
         return f'F{i}:payload-{i}-{"x" * (i % 3)}\n'
+    if name == 'ifs':
+        return f'#if C{i}\n'
     return f'L{i};\n' if name == 'lines' else f'# {i + 1} "f{i}.h"\n'
 
 
@@ -147,6 +153,8 @@ def build_file(name, n):
         text = ''.join(item_text(name, i) for i in range(n))
     elif name == 'gcda':
         return 'HDR toy coverage file\n' + ''.join(item_text(name, i) for i in range(n))
+    elif name == 'ifs':
+        return 'int keep0;\n' + ''.join(item_text(name, i) + f'int body{i};\n#endif\n' + ('int between;\n' if i % 2 else '') for i in range(n))
     else:
         parts = ['int keep0;\n']
         for i in range(n):
@@ -228,8 +236,9 @@ def judge_pass_case(ctx, name, n, label, loop, final, final_text, required, test
         if final != sorted(required):
             ctx.report('monotone-not-exact', f'{name}: result {final} != required subset {sorted(required)}', scen)
             return
-        # everything that is not an instance must be untouched
-        expect = ''.join(l for l in build_file(name, n).splitlines(keepends=True)
+        # everything that is not an instance must be untouched (ifs: a resolved `#if 0` takes its block along, judged by the
+        # instances only)
+        expect = final_text if name == 'ifs' else ''.join(l for l in build_file(name, n).splitlines(keepends=True)
                          if not any(l.rstrip('\n') == item_text(name, j).rstrip('\n') for j in range(n) if j not in required))
         if final_text != expect:
             ctx.report('non-instance-text-changed', f'{name}: text outside the removed instances changed', scen)
@@ -260,9 +269,9 @@ def hash_pred(seed, density):
 def part_passes(ctx, diffs, deep=False):
     nmax = (7 if ctx.tier == 'quick' else 10) + (1 if deep else 0)
     lines, reals, scens = [], [], []
-    for name, nl in (('lines', True), ('line_markers', True), ('lines', False), ('line_markers', False), ('gcda', True)):
+    for name, nl in (('lines', True), ('line_markers', True), ('lines', False), ('line_markers', False), ('gcda', True), ('ifs', True)):
         FINAL_NEWLINE[0] = nl
-        for n in range(0, (nmax if nl and name != 'gcda' else 5) + 1):
+        for n in range(0, (nmax if nl and name not in ('gcda', 'ifs') else 5) + 1):
             for mask in range(1 << n):
                 req = [i for i in range(n) if mask >> i & 1]
                 ti = (lambda its, req=req: all(r in its for r in req))
@@ -271,15 +280,15 @@ def part_passes(ctx, diffs, deep=False):
                 judge_pass_case(ctx, name, n, {'required': req}, loop, final, ftxt, req, ti)
                 if 0 < len(req) < n:
                     ctx.nontrivial(('req', name, n, mask))
-                if name == 'gcda':
-                    continue      # restarts from scratch after every accepted removal: not the generic run of the model, judged directly
+                if name in ('gcda', 'ifs'):
+                    continue      # gcda restarts from scratch after every accepted removal: not the generic run of the model, judged directly
                 lines.append(f'binrun {n} {enc_list(req)}')
                 reals.append(trace_str(loop, final))
                 scens.append({'kind': 'pass', 'pass': name, 'n': n, 'required': req, 'final_newline': nl})
         if not nl:
             FINAL_NEWLINE[0] = True
             continue
-        if name == 'gcda':
+        if name in ('gcda', 'ifs'):
             continue
         # arbitrary (non-monotone) deterministic predicates
         for k in range(60 if ctx.tier == 'quick' else 600):
